@@ -32,6 +32,11 @@ func extraMode(mode string, n int, r *rand.Rand) bool {
 		for i := 0; i < n; i++ {
 			emit(genE2E13(r))
 		}
+	case "e2etailg":
+		forceTwoKeys = true
+		for i := 0; i < n; i++ {
+			emit(genE2ETail(r))
+		}
 	case "e2etail":
 		for i := 0; i < n; i++ {
 			emit(genE2ETail(r))
